@@ -167,6 +167,13 @@ class Effect:
             e = self.call.args[pos]
         if e is None and kw is not None:
             e = Q.kwarg(self.call, kw)
+        if e is None and kw is not None:
+            # **mapping built in this function
+            for k in self.call.keywords:
+                if k.arg is None:
+                    rec = self.facts.flow.record(k.value, self.fn, self.bind)
+                    if rec and kw in rec:
+                        return self.facts.flow.rec_atoms(rec, kw)
         if e is None:
             return set()
         if shallow:
